@@ -232,7 +232,7 @@ func svHas(codes []ErrCode, c ErrCode) bool {
 	return false
 }
 
-func svSequence(steps int) {
+func svSequence(steps int, letters []int) {
 	atomic.StoreInt32(&svHandledCtr, 0)
 	svGate = make(chan struct{})
 	s := svStart(&Server{}, &http.Server{}, http.HandlerFunc(svGated))
@@ -242,7 +242,12 @@ func svSequence(steps int) {
 	m := &svModel{acks: 1}
 	maxStarted := uint32(0)
 	for i := 0; i < steps; i++ {
-		k := vRange(vName("letter", i), 0, svLetters-1)
+		var k int
+		if letters == nil {
+			k = vRange(vName("letter", i), 0, svLetters-1)
+		} else {
+			k = letters[vRange(vName("letter", i), 0, len(letters)-1)]
+		}
 		frame, sid := svLetter(k)
 		handledBefore := svHandledN()
 		wasDead := m.dead
@@ -315,5 +320,9 @@ func svSequence(steps int) {
 	svFinish(s)
 }
 
-func VerifC13_serve_sequences_quick()    { svSequence(2) }
-func VerifC13_serve_sequences_thorough() { svSequence(3) }
+func VerifC13_serve_sequences_quick()    { svSequence(2, nil) }
+func VerifC13_serve_sequences_thorough() { svSequence(3, nil) }
+
+// four frames over the nine letters that move one stream through its states (requests with and
+// without END_STREAM and with a declared length, DATA, trailers, RST_STREAM, a second stream, GOAWAY)
+func VerifC13_serve_sequences_deep() { svSequence(4, []int{0, 1, 2, 3, 4, 5, 10, 18, 19}) }
